@@ -17,6 +17,7 @@ import Influx.Lemmas.TsmCrash
 import Influx.Lemmas.TsmVisible
 import Influx.Lemmas.TsmWriter
 import Influx.Lemmas.TsmSpecTs
+import Influx.Lemmas.TsmReader
 
 namespace Influx.Props.C08
 open Influx.Tsm Influx.Spec.C08
@@ -108,6 +109,43 @@ theorem C08_never_over_deletes (ix : Index) (H : Hist) (h : TInv ix H) (ke : Key
 /-- `Delete(keys)` removes exactly those keys from the index -/
 theorem C08_delete_exact (ix : Index) (h : IndexInv ix) (keys : List Key) :
     (delete ix keys).live = ix.live.filter fun ke => !decide (ke.key ∈ keys) := delete_live ix h keys
+
+/-! ### … at the reader level, across re-opening
+
+  `Req` = every acknowledged request (k, lo, hi) of `TSMReader.DeleteRange` (sorted keys) and
+  `TSMReader.Delete`; `file` = the tombstone file (its members).  `RInv file r Req` packs: the
+  index invariant above for a set of applied requests that lies between "the requests that
+  matter" (key in the file, range meeting the key's span) and `Req`; every tombstone of the
+  file was requested; every request that matters is in the file.  The filters of the delete
+  path (`OverlapsKeyRange`, `OverlapsTimeRange`, `ContainsKey`) and the batching of
+  `applyTombstones` (equal (min,max), 4096 keys) are inside the proved functions. -/
+
+theorem C08_reader_open (file : TFile) (kes : List KeyEntry) (hs : SortedKE kes) (hwf : ∀ ke ∈ kes, WFKE ke) :
+    RInv file (openReader file kes) (fileReqs file) ∧ (openReader file kes).ix.all = kes :=
+  open_inv file kes hs hwf
+
+theorem C08_reader_deleteRange (file : TFile) (r : Reader) (Req : Hist) (h : RInv file r Req) (keys : List Key)
+    (hsk : SortedK keys) (lo hi : Int) :
+    RInv (rDeleteRange file r keys lo hi).1 (rDeleteRange file r keys lo hi).2 (Req ++ reqs keys lo hi) ∧
+    (rDeleteRange file r keys lo hi).2.ix.all = r.ix.all := rDeleteRange_inv file r Req h keys hsk lo hi
+
+theorem C08_reader_delete (file : TFile) (r : Reader) (Req : Hist) (h : RInv file r Req) (keys : List Key) :
+    RInv (rDelete file r keys).1 (rDelete file r keys).2 (Req ++ reqs keys minInt64 maxInt64) ∧
+    (rDelete file r keys).2.ix.all = r.ix.all := rDelete_inv file r Req h keys
+
+/-- **Tombstones persist across reopen**: a reader freshly opened on the same file content and
+    the tombstone file as it is on disk hides exactly the same requests. -/
+theorem C08_persist_reopen (file : TFile) (r : Reader) (Req : Hist) (h : RInv file r Req)
+    (hs : SortedKE r.ix.all) (hwf : ∀ ke ∈ r.ix.all, WFKE ke) :
+    RInv file (openReader file r.ix.all) Req ∧ (openReader file r.ix.all).ix.all = r.ix.all :=
+  reopen_inv file r Req h hs hwf
+
+/-- **hide exactly what was requested** (reader level): after any sequence of the operations
+    above, a point is visible iff a block of the file holds it and no acknowledged request
+    covers it. -/
+theorem C08_reader_hidden_iff (file : TFile) (r : Reader) (Req : Hist) (h : RInv file r Req) (k : Key) (t : Int) :
+    containsValue r.ix k t = true ↔ hasPoint r.ix.all k t ∧ ¬ coveredH Req k t :=
+  reader_visible_iff file r Req h k t
 
 /-! ## 4. the tombstone file -/
 
